@@ -3,6 +3,7 @@
 Require Import Selen.Model.Prelude Selen.Model.Dom Selen.Model.Views Selen.Model.PropDefs.
 Require Import Selen.Model.Props.Basic Selen.Model.Props.LinInt Selen.Model.Api Selen.Model.Lower.
 Require Import Selen.Proofs.SparseSetProofs Selen.Proofs.DomProofs.
+Require Export Selen.Proofs.EBoundsSound.   (* escoped, ebounds_sound, aux_dom_sound *)
 
 (* ============================================================================================ *)
 (* A. constant folding and identity elimination preserve the arithmetic reading                  *)
@@ -164,12 +165,6 @@ Definition pscoped (n : nat) (p : pdesc) : Prop :=
   | PLeq x y | PEq x y | PNeq x y => vscoped n x /\ vscoped n y
   | PLinEq _ xs _ | PLinLe _ xs _ | PLinNe _ xs _ => Forall (fun v => (v < n)%nat) xs
   end.
-Fixpoint escoped (n : nat) (e : expr) : Prop :=
-  match e with
-  | EVar v => (v < n)%nat
-  | EVal _ => True
-  | EAdd l r | ESub l r | EMul l r | EMod l r => escoped n l /\ escoped n r
-  end.
 Fixpoint cscoped (n : nat) (c : cons) : Prop :=
   match c with
   | CBin l _ r => escoped n l /\ escoped n r
@@ -236,13 +231,6 @@ Proof.
   - rewrite (Ha v Hs); reflexivity.
   - reflexivity.
 Qed.
-Lemma win_sub_agree : forall n a a' e, escoped n e -> agree n a a' -> win_sub e a' = win_sub e a.
-Proof.
-  intros n a a'; induction e; intros Hs Ha; try reflexivity;
-  (cbn [win_sub]; rewrite (eval_agree n a a' _ Hs Ha); destruct Hs; rewrite IHe1, IHe2 by assumption; reflexivity).
-Qed.
-Lemma win_top_agree : forall n a a' e, escoped n e -> agree n a a' -> win_top e a' = win_top e a.
-Proof. intros n a a' e Hs Ha; destruct e; try reflexivity; apply (win_sub_agree n); assumption. Qed.
 Lemma lin_val_agree : forall n a a' cs xs, Forall (fun v => (v < n)%nat) xs -> agree n a a' -> lin_val cs xs a' = lin_val cs xs a.
 Proof. intros; rewrite !lin_val_combine; eapply lin_sem_agree; eauto. Qed.
 
@@ -261,7 +249,7 @@ Lemma impl_agree : forall b n a a' c, cscoped n c -> agree n a a' -> impl_gen b 
 Proof.
   intros b n a a'; induction c; simpl; intros Hs Ha.
   - destruct Hs as [H1 H2].
-    rewrite (eval_agree n a a' l H1 Ha), (eval_agree n a a' r H2 Ha), (win_top_agree n a a' l H1 Ha), (win_top_agree n a a' r H2 Ha).
+    rewrite (eval_agree n a a' l H1 Ha), (eval_agree n a a' r H2 Ha).
     reflexivity.
   - destruct Hs; rewrite IHc1, IHc2 by assumption; reflexivity.
   - destruct Hs as [H1 H2]. destruct (or_eq_pattern c1 c2) as [[[x l] r]|] eqn:E.
@@ -293,10 +281,6 @@ Proof. intros a a' s Ha H v Hv. rewrite (Ha v Hv). apply H; exact Hv. Qed.
 
 Lemma drange_In : forall lo hi x, In x (drange lo hi) <-> lo <= x <= hi.
 Proof. intros; unfold drange; rewrite zrange_In; lia. Qed.
-Lemma aux_dom_In : forall x, In x aux_dom <-> in_aux x = true.
-Proof.
-  intro x; unfold aux_dom, in_aux; rewrite drange_In, andb_true_iff, !Z.leb_le; tauto.
-Qed.
 
 Lemma memZ_In : forall x l, memZ x l = true <-> In x l.
 Proof.
@@ -323,23 +307,54 @@ Proof.
     + rewrite sget_supd_other by assumption. apply H1; assumption.
 Qed.
 
+(* ---- no empty domain: the in-range condition (Model/Lower.v doms_nonempty).  An auxiliary variable
+   whose computed range is too large is represented by the empty domain (aux_dom); the completeness
+   half of every step below is about final stores without an empty domain ---- *)
+Definition ne (s : store) : Prop := forall v, (v < length s)%nat -> sget s v <> [].
+
+Lemma inst_ne : forall a (s : store), inst a s -> ne s.
+Proof. intros a s H v Hv E. specialize (H v Hv). rewrite E in H. exact H. Qed.
+Lemma ne_app : forall (s : store) d, ne (s ++ [d]) -> ne s /\ d <> [].
+Proof.
+  intros s d H; split.
+  - intros v Hv. rewrite <- (sget_app_old s d v Hv). apply H. rewrite app_length; simpl; lia.
+  - rewrite <- (sget_app_new s d). apply H. rewrite app_length; simpl; lia.
+Qed.
+Lemma ne_supd_only : forall (s : store) v k, (v < length s)%nat -> ne (supd s v (only k (sget s v))) -> ne s.
+Proof.
+  intros s v k Hv H u Hu. destruct (Nat.eq_dec u v) as [->|Hne].
+  - specialize (H v). rewrite supd_length in H. specialize (H Hv). rewrite sget_supd_same in H by exact Hv.
+    unfold only in H. destruct (memZ k (sget s v)) eqn:E; [|congruence].
+    apply memZ_In in E. intro E0. rewrite E0 in E. exact E.
+  - specialize (H u). rewrite supd_length in H. specialize (H Hu). rewrite sget_supd_other in H by exact Hne. exact H.
+Qed.
+Lemma doms_nonempty_ne : forall s : store, doms_nonempty s = true <-> ne s.
+Proof.
+  intro s; unfold doms_nonempty; rewrite forallb_forall; split.
+  - intros H v Hv E. assert (Hin : In (sget s v) s) by (unfold sget; apply nth_In; exact Hv).
+    specialize (H _ Hin). rewrite E in H. discriminate H.
+  - intros H d Hd. apply (In_nth _ _ []) in Hd. destruct Hd as [v [Hv E]].
+    destruct d; [|reflexivity]. exfalso. apply (H v Hv). exact E.
+Qed.
+
 (* ---- a lowering step from st to st' that adds exactly the constraint P ---- *)
 Record step (st st' : lst) (P : asg -> Prop) : Prop := mkstep {
   st_n : (nvars st <= nvars st')%nat;
+  st_ne : ne (fst st') -> ne (fst st);
   st_props : exists np, snd st' = snd st ++ np /\ Forall (pscoped (nvars st')) np /\
      (forall a', inst a' (fst st') -> allsat np a' -> inst a' (fst st) /\ P a') /\
-     (forall a, inst a (fst st) -> P a ->
+     (forall a, inst a (fst st) -> P a -> ne (fst st') ->
         exists a', agree (nvars st) a a' /\ inst a' (fst st') /\ allsat np a') }.
 
 Lemma step_refl : forall st (P : asg -> Prop), (forall a, P a) -> step st st P.
 Proof.
-  intros st P HP; split; [lia|]. exists []; rewrite app_nil_r; repeat split; auto.
-  - intros a H; exists a; repeat split; auto using agree_refl, allsat_nil.
+  intros st P HP; split; [lia|auto|]. exists []; rewrite app_nil_r; repeat split; auto.
+  - intros a H _ _; exists a; repeat split; auto using agree_refl, allsat_nil.
 Qed.
 
 Lemma step_weaken : forall st st' (P Q : asg -> Prop), (forall a, P a <-> Q a) -> step st st' P -> step st st' Q.
 Proof.
-  intros st st' P Q E [Hn [np [H1 [H2 [H3 H4]]]]]; split; [exact Hn|].
+  intros st st' P Q E [Hn Hne [np [H1 [H2 [H3 H4]]]]]; split; [exact Hn|exact Hne|].
   exists np; repeat split; auto.
   - apply (H3 a'); assumption.
   - apply E; apply (H3 a'); assumption.
@@ -351,15 +366,15 @@ Lemma step_trans : forall st st1 st2 (P Q : asg -> Prop),
   (forall a a', agree (nvars st) a a' -> Q a -> Q a') ->
   step st st1 P -> step st1 st2 Q -> step st st2 (fun a => P a /\ Q a).
 Proof.
-  intros st st1 st2 P Q HQ [Hn1 [np1 [E1 [S1 [So1 Co1]]]]] [Hn2 [np2 [E2 [S2 [So2 Co2]]]]].
-  split; [lia|]. exists (np1 ++ np2). split; [rewrite E2, E1, app_assoc; reflexivity|]. split.
+  intros st st1 st2 P Q HQ [Hn1 Hne1 [np1 [E1 [S1 [So1 Co1]]]]] [Hn2 Hne2 [np2 [E2 [S2 [So2 Co2]]]]].
+  split; [lia|auto|]. exists (np1 ++ np2). split; [rewrite E2, E1, app_assoc; reflexivity|]. split.
   - apply Forall_app; split; [eapply Forall_pscoped_le; eauto|exact S2].
   - split.
     + intros a' Hi Hs. apply allsat_app in Hs; destruct Hs as [Hs1 Hs2].
       destruct (So2 a' Hi Hs2) as [Hi1 HQa]. destruct (So1 a' Hi1 Hs1) as [Hi0 HPa]. auto.
-    + intros a Hi [HPa HQa].
-      destruct (Co1 a Hi HPa) as [a1 [A1 [I1 Sat1]]].
-      destruct (Co2 a1 I1 (HQ a a1 A1 HQa)) as [a2 [A2 [I2 Sat2]]].
+    + intros a Hi [HPa HQa] N2.
+      destruct (Co1 a Hi HPa (Hne2 N2)) as [a1 [A1 [I1 Sat1]]].
+      destruct (Co2 a1 I1 (HQ a a1 A1 HQa) N2) as [a2 [A2 [I2 Sat2]]].
       exists a2; split; [eapply agree_trans; eauto|]. split; [exact I2|].
       apply allsat_app; split; [|exact Sat2]. eapply allsat_agree; eauto.
 Qed.
@@ -368,10 +383,10 @@ Qed.
 Lemma step_push : forall st p (P : asg -> Prop), pscoped (nvars st) p ->
   (forall a, psat p a = true <-> P a) -> step st (push p st) P.
 Proof.
-  intros st p P Hs HP; split; [unfold nvars, push; simpl; lia|].
+  intros st p P Hs HP; split; [unfold nvars, push; simpl; lia|unfold push; simpl; auto|].
   exists [p]; unfold push; simpl. repeat split; auto.
   - apply HP; apply allsat_one; assumption.
-  - intros a Hi Ha; exists a; repeat split; auto using agree_refl. apply allsat_one; apply HP; exact Ha.
+  - intros a Hi Ha _; exists a; repeat split; auto using agree_refl. apply allsat_one; apply HP; exact Ha.
 Qed.
 
 (* allocating a variable with domain d and constraining nothing else: the new variable takes a
@@ -383,50 +398,36 @@ Proof. intros; unfold new_var, nvars; simpl; rewrite app_length; simpl; lia. Qed
 Definition ext1 (st st1 : lst) (e : expr) (ev : nat) : Prop :=
   snd st1 = snd st /\
   ((is_var e = true /\ e = EVar ev /\ st1 = st) \/
-   (is_var e = false /\ ev = nvars st /\ fst st1 = fst st ++ [aux_dom])).
+   (is_var e = false /\ ev = nvars st /\ fst st1 = fst st ++ [aux_dom (fst st) e])).
 
 Lemma alloc_ext1 : forall e st, ext1 st (snd (create_result_var e st)) e (fst (create_result_var e st)).
 Proof. intros e st; destruct e; simpl; unfold ext1; simpl; auto. Qed.
 
+(* the auxiliary variable's computed bounds contain every value of e (aux_dom_sound) *)
 Lemma ext1_facts : forall st st1 e ev, ext1 st st1 e ev -> escoped (nvars st) e ->
   (ev < nvars st1)%nat /\ (nvars st <= nvars st1)%nat /\
-  (forall a', inst a' (fst st1) -> inst a' (fst st) /\ (is_var e = false -> in_aux (a' ev) = true)) /\
-  (forall a x, inst a (fst st) -> eval_expr e a = Some x -> (is_var e = false -> in_aux x = true) ->
+  (forall a', inst a' (fst st1) -> inst a' (fst st)) /\
+  (ne (fst st1) -> ne (fst st)) /\
+  (forall a x, inst a (fst st) -> eval_expr e a = Some x -> ne (fst st1) ->
      exists a1, agree (nvars st) a a1 /\ inst a1 (fst st1) /\ a1 ev = x).
 Proof.
   intros st st1 e ev [Hp [[Hv [He Hst]]|[Hv [Hev Hf]]]] Hs.
-  - subst e st1. simpl in Hs. split; [exact Hs|]. split; [lia|]. split.
-    + intros a' Hi; split; [exact Hi|intro; discriminate].
-    + intros a x Hi Hx _. exists a; repeat split; auto using agree_refl. simpl in Hx; congruence.
+  - subst e st1. simpl in Hs. split; [exact Hs|]. split; [lia|]. split; [auto|]. split; [auto|].
+    intros a x Hi Hx _. exists a; repeat split; auto using agree_refl. simpl in Hx; congruence.
   - subst ev. assert (L : nvars st1 = S (nvars st)) by (unfold nvars; rewrite Hf, app_length; simpl; lia).
-    split; [lia|]. split; [lia|]. split.
-    + intros a' Hi. rewrite Hf in Hi; apply inst_app in Hi. destruct Hi as [Hi Hin].
-      split; [exact Hi|]. intros _. apply aux_dom_In; exact Hin.
-    + intros a x Hi Hx Hin. exists (upd a (nvars st) x). split; [apply agree_upd; lia|]. split.
+    split; [lia|]. split; [lia|]. split; [|split].
+    + intros a' Hi. rewrite Hf in Hi; apply inst_app in Hi. tauto.
+    + intro N. rewrite Hf in N. apply ne_app in N. tauto.
+    + intros a x Hi Hx N. rewrite Hf in N. apply ne_app in N. destruct N as [_ N].
+      exists (upd a (nvars st) x). split; [apply agree_upd; lia|]. split.
       * rewrite Hf; apply inst_app; split.
         -- eapply inst_agree; [apply agree_upd; unfold nvars; lia|exact Hi].
-        -- unfold nvars; rewrite upd_same. apply aux_dom_In; auto.
+        -- unfold nvars; rewrite upd_same. eapply aux_dom_sound; eauto.
       * apply upd_same.
 Qed.
 
 (* ---- post_expression_constraint ---- *)
-Definition win_kids (e : expr) (a : asg) : bool :=
-  match e with
-  | EVar _ | EVal _ => true
-  | EAdd l r | ESub l r | EMul l r | EMod l r => win_sub l a && win_sub r a
-  end.
-Definition in_aux_opt (o : option Z) : bool := match o with Some x => in_aux x | None => true end.
-Lemma win_sub_nonvar : forall e a, is_var e = false -> win_sub e a = win_kids e a && in_aux_opt (eval_expr e a).
-Proof. intros e a H; destruct e; try discriminate; reflexivity. Qed.
-Lemma win_sub_var : forall e a, is_var e = true -> win_sub e a = true.
-Proof. intros e a H; destruct e; try discriminate; reflexivity. Qed.
-Lemma win_kids_agree : forall n a a' e, escoped n e -> agree n a a' -> win_kids e a' = win_kids e a.
-Proof.
-  intros n a a' e Hs Ha; destruct e; try reflexivity; simpl in *; destruct Hs;
-  rewrite !(win_sub_agree n a a') by assumption; reflexivity.
-Qed.
-
-Definition Pexpr (e : expr) (res : nat) (a : asg) : Prop := eval_expr e a = Some (a res) /\ win_kids e a = true.
+Definition Pexpr (e : expr) (res : nat) (a : asg) : Prop := eval_expr e a = Some (a res).
 
 Definition opt_post (rec : expr -> nat -> lst -> lst) (e : expr) (ev : nat) (st : lst) : lst :=
   if is_var e then st else rec e ev st.
@@ -453,7 +454,7 @@ Section BinBody.
     step st (opt_post rec e ev st) (Pexpr e ev).
   Proof.
     intros e IH ev st Hs Hev Hv; unfold opt_post. destruct (is_var e) eqn:E.
-    - apply step_refl. intro a. rewrite (Hv eq_refl). split; reflexivity.
+    - apply step_refl. intro a. rewrite (Hv eq_refl). reflexivity.
     - apply IH; assumption.
   Qed.
 
@@ -465,16 +466,16 @@ Section BinBody.
 
   Lemma bin_body_ok : forall st, escoped (nvars st) l -> escoped (nvars st) r -> (res < nvars st)%nat ->
     step st (bin_body rec l r mk st)
-      (fun a => (do p <- eval_expr l a; do q <- eval_expr r a; opf p q) = Some (a res) /\ win_sub l a = true /\ win_sub r a = true).
+      (fun a => (do p <- eval_expr l a; do q <- eval_expr r a; opf p q) = Some (a res)).
   Proof.
     intros st Hsl Hsr Hres. rewrite bin_body_eq; cbv zeta.
     pose proof (alloc_ext1 l st) as X1.
     set (st1 := snd (create_result_var l st)) in *. set (lv := fst (create_result_var l st)) in *.
     pose proof (alloc_ext1 r st1) as X2.
     set (st2 := snd (create_result_var r st1)) in *. set (rv := fst (create_result_var r st1)) in *.
-    destruct (ext1_facts _ _ _ _ X1 Hsl) as [Hlv [Hn1 [So1 Co1]]].
+    destruct (ext1_facts _ _ _ _ X1 Hsl) as [Hlv [Hn1 [So1 [N1 Co1]]]].
     assert (Hsr1 : escoped (nvars st1) r) by (eapply escoped_le; eauto).
-    destruct (ext1_facts _ _ _ _ X2 Hsr1) as [Hrv [Hn2 [So2 Co2]]].
+    destruct (ext1_facts _ _ _ _ X2 Hsr1) as [Hrv [Hn2 [So2 [N2 Co2]]]].
     assert (Hsl2 : escoped (nvars st2) l) by (eapply escoped_le; [|exact Hsl]; lia).
     assert (Hlv2 : (lv < nvars st2)%nat) by lia.
     assert (Vl : is_var l = true -> l = EVar lv).
@@ -483,15 +484,15 @@ Section BinBody.
     { intro E. destruct X2 as [_ [[_ [He _]]|[F _]]]; [exact He|congruence]. }
     pose proof (opt_post_ok l IHl lv st2 Hsl2 Hlv2 Vl) as S3.
     set (st3 := opt_post rec l lv st2) in *.
-    destruct S3 as [Hn3 [np3 [E3 [Sc3 [So3 Co3]]]]].
+    destruct S3 as [Hn3 N3 [np3 [E3 [Sc3 [So3 Co3]]]]].
     assert (Hsr3 : escoped (nvars st3) r) by (eapply escoped_le; [|exact Hsr]; lia).
     assert (Hrv3 : (rv < nvars st3)%nat) by lia.
     pose proof (opt_post_ok r IHr rv st3 Hsr3 Hrv3 Vr) as S4.
     set (st4 := opt_post rec r rv st3) in *.
-    destruct S4 as [Hn4 [np4 [E4 [Sc4 [So4 Co4]]]]].
+    destruct S4 as [Hn4 N4 [np4 [E4 [Sc4 [So4 Co4]]]]].
     assert (P12 : snd st2 = snd st).
     { destruct X2 as [Q2 _]. destruct X1 as [Q1 _]. fold st1 in Q1. congruence. }
-    split; [unfold push, nvars in *; simpl; lia|].
+    split; [unfold push, nvars in *; simpl; lia|unfold push; cbn [fst]; auto|].
     exists (np3 ++ np4 ++ [mk lv rv]). split.
     { unfold push; simpl. rewrite E4, E3, P12, <- !app_assoc. reflexivity. }
     split.
@@ -502,38 +503,25 @@ Section BinBody.
     - intros a' Hi Hs. unfold push in Hi; simpl in Hi.
       apply allsat_app in Hs; destruct Hs as [Hs3 Hs]. apply allsat_app in Hs; destruct Hs as [Hs4 Hs5].
       apply allsat_one in Hs5. apply Hmk in Hs5.
-      destruct (So4 a' Hi Hs4) as [Hi3 [Er Kr]]. destruct (So3 a' Hi3 Hs3) as [Hi2 [El Kl]].
-      destruct (So2 a' Hi2) as [Hi1 Ar]. destruct (So1 a' Hi1) as [Hi0 Al].
-      split; [exact Hi0|]. rewrite El, Er; simpl. split; [exact Hs5|]. split.
-      + destruct (is_var l) eqn:E; [apply win_sub_var; exact E|].
-        rewrite win_sub_nonvar by exact E. rewrite Kl, El; simpl. apply Al; reflexivity.
-      + destruct (is_var r) eqn:E; [apply win_sub_var; exact E|].
-        rewrite win_sub_nonvar by exact E. rewrite Kr, Er; simpl. apply Ar; reflexivity.
-    - intros a Hi [Hev [Wl Wr]].
+      destruct (So4 a' Hi Hs4) as [Hi3 Er]. destruct (So3 a' Hi3 Hs3) as [Hi2 El].
+      pose proof (So2 a' Hi2) as Hi1. pose proof (So1 a' Hi1) as Hi0.
+      split; [exact Hi0|]. unfold Pexpr in El, Er. rewrite El, Er; simpl. exact Hs5.
+    - intros a Hi Hev NN. unfold push in NN; cbn [fst] in NN.
+      pose proof (N4 NN) as NN3. pose proof (N3 NN3) as NN2. pose proof (N2 NN2) as NN1.
       destruct (eval_expr l a) as [x|] eqn:El; [|discriminate]. destruct (eval_expr r a) as [y|] eqn:Er; [|discriminate].
       simpl in Hev.
-      assert (Ax : is_var l = false -> in_aux x = true).
-      { intro E. rewrite win_sub_nonvar in Wl by exact E. rewrite El in Wl. apply andb_true_iff in Wl; tauto. }
-      assert (Ay : is_var r = false -> in_aux y = true).
-      { intro E. rewrite win_sub_nonvar in Wr by exact E. rewrite Er in Wr. apply andb_true_iff in Wr; tauto. }
-      assert (Kl : win_kids l a = true).
-      { destruct (is_var l) eqn:E; [destruct l; try discriminate; reflexivity|].
-        rewrite win_sub_nonvar in Wl by exact E. apply andb_true_iff in Wl; tauto. }
-      assert (Kr : win_kids r a = true).
-      { destruct (is_var r) eqn:E; [destruct r; try discriminate; reflexivity|].
-        rewrite win_sub_nonvar in Wr by exact E. apply andb_true_iff in Wr; tauto. }
-      destruct (Co1 a x Hi El Ax) as [a1 [A1 [I1 V1]]].
+      destruct (Co1 a x Hi El NN1) as [a1 [A1 [I1 V1]]].
       assert (Er1 : eval_expr r a1 = Some y) by (rewrite (eval_agree _ a a1 r Hsr A1); exact Er).
-      destruct (Co2 a1 y I1 Er1 Ay) as [a2 [A2 [I2 V2]]].
+      destruct (Co2 a1 y I1 Er1 NN2) as [a2 [A2 [I2 V2]]].
       assert (A02 : agree (nvars st) a a2) by (eapply agree_trans; eauto).
       assert (V1' : a2 lv = x) by (rewrite (A2 lv Hlv); exact V1).
       assert (Pl : Pexpr l lv a2).
-      { split; [rewrite (eval_agree _ a a2 l Hsl A02), V1'; exact El|rewrite (win_kids_agree _ a a2 l Hsl A02); exact Kl]. }
-      destruct (Co3 a2 I2 Pl) as [a3 [A3 [I3 Sat3]]].
+      { unfold Pexpr. rewrite (eval_agree _ a a2 l Hsl A02), V1'; exact El. }
+      destruct (Co3 a2 I2 Pl NN3) as [a3 [A3 [I3 Sat3]]].
       assert (A03 : agree (nvars st) a a3) by (eapply agree_trans; [|exact A02|exact A3]; lia).
       assert (Pr : Pexpr r rv a3).
-      { split; [rewrite (eval_agree _ a a3 r Hsr A03), (A3 rv Hrv), V2; exact Er|rewrite (win_kids_agree _ a a3 r Hsr A03); exact Kr]. }
-      destruct (Co4 a3 I3 Pr) as [a4 [A4 [I4 Sat4]]].
+      { unfold Pexpr. rewrite (eval_agree _ a a3 r Hsr A03), (A3 rv Hrv), V2; exact Er. }
+      destruct (Co4 a3 I3 Pr NN) as [a4 [A4 [I4 Sat4]]].
       assert (A04 : agree (nvars st) a a4) by (eapply agree_trans; [|exact A03|exact A4]; lia).
       exists a4. split; [exact A04|]. split; [exact I4|].
       apply allsat_app; split; [eapply allsat_agree; eauto|].
@@ -557,74 +545,72 @@ Proof.
     intro a; unfold Pexpr; simpl. rewrite Z.eqb_eq, some_eq_iff. tauto.
   - destruct Hs as [H1 H2].
     eapply step_weaken; [|apply (bin_body_ok post_expr e1 e2 IHe1 IHe2 _ (fun p q => Some (p + q)) res); auto].
-    + intro a; unfold Pexpr; simpl. rewrite andb_true_iff. tauto.
+    + intro a; unfold Pexpr; simpl. tauto.
     + intros lv rv a; simpl. rewrite Z.eqb_eq, some_eq_iff. tauto.
     + intros n lv rv; simpl; unfold vscoped; simpl; auto.
   - destruct Hs as [H1 H2].
     eapply step_weaken; [|apply (bin_body_ok post_expr e1 e2 IHe1 IHe2 _ (fun p q => Some (p - q)) res); auto].
-    + intro a; unfold Pexpr; simpl. rewrite andb_true_iff. tauto.
+    + intro a; unfold Pexpr; simpl. tauto.
     + intros lv rv a; cbn [psat p_sub vtimes_neg vsem]. rewrite Z.eqb_eq, some_eq_iff. split; intro; lia.
     + intros n lv rv; simpl; unfold vscoped; simpl; auto.
   - destruct Hs as [H1 H2].
     eapply step_weaken; [|apply (bin_body_ok post_expr e1 e2 IHe1 IHe2 _ (fun p q => Some (p * q)) res); auto].
-    + intro a; unfold Pexpr; simpl. rewrite andb_true_iff. tauto.
+    + intro a; unfold Pexpr; simpl. tauto.
     + intros lv rv a; simpl. rewrite Z.eqb_eq, some_eq_iff. tauto.
     + intros n lv rv; simpl; unfold vscoped; simpl; auto.
   - destruct Hs as [H1 H2].
     eapply step_weaken; [|apply (bin_body_ok post_expr e1 e2 IHe1 IHe2 _ (fun p q => if q =? 0 then None else Some (trem p q)) res); auto].
-    + intro a; unfold Pexpr; simpl. rewrite andb_true_iff. tauto.
+    + intro a; unfold Pexpr; simpl. tauto.
     + intros lv rv a; simpl. destruct (a rv =? 0); simpl; [split; discriminate|].
       rewrite Z.eqb_eq, some_eq_iff. split; intro; congruence.
     + intros n lv rv; simpl; unfold vscoped; simpl; auto.
 Qed.
 
 (* create_result_var + post_expression_constraint on a non-variable expression *)
-Definition gev_spec (e : expr) (win : expr -> asg -> bool) (st : lst) (v : nat) (st' : lst) : Prop :=
-  (v < nvars st')%nat /\ (nvars st <= nvars st')%nat /\
+Definition gev_spec (e : expr) (st : lst) (v : nat) (st' : lst) : Prop :=
+  (v < nvars st')%nat /\ (nvars st <= nvars st')%nat /\ (ne (fst st') -> ne (fst st)) /\
   exists np, snd st' = snd st ++ np /\ Forall (pscoped (nvars st')) np /\
     (forall a', inst a' (fst st') -> allsat np a' ->
-        inst a' (fst st) /\ eval_expr e a' = Some (a' v) /\ win e a' = true) /\
-    (forall a x, inst a (fst st) -> eval_expr e a = Some x -> win e a = true ->
+        inst a' (fst st) /\ eval_expr e a' = Some (a' v)) /\
+    (forall a x, inst a (fst st) -> eval_expr e a = Some x -> ne (fst st') ->
         exists a', agree (nvars st) a a' /\ inst a' (fst st') /\ allsat np a' /\ a' v = x).
 
 Lemma alloc_post_ok : forall e st, is_var e = false -> escoped (nvars st) e ->
-  gev_spec e win_sub st (fst (create_result_var e st)) (post_expr e (fst (create_result_var e st)) (snd (create_result_var e st))).
+  gev_spec e st (fst (create_result_var e st)) (post_expr e (fst (create_result_var e st)) (snd (create_result_var e st))).
 Proof.
   intros e st Hv Hs.
   pose proof (alloc_ext1 e st) as X. set (st1 := snd (create_result_var e st)) in *. set (rv := fst (create_result_var e st)) in *.
-  destruct (ext1_facts _ _ _ _ X Hs) as [Hrv [Hn1 [So1 Co1]]].
+  destruct (ext1_facts _ _ _ _ X Hs) as [Hrv [Hn1 [So1 [N1 Co1]]]].
   assert (Hs1 : escoped (nvars st1) e) by (eapply escoped_le; eauto).
-  destruct (post_expr_ok e rv st1 Hs1 Hrv) as [Hn2 [np [E2 [Sc2 [So2 Co2]]]]].
+  destruct (post_expr_ok e rv st1 Hs1 Hrv) as [Hn2 N2 [np [E2 [Sc2 [So2 Co2]]]]].
   assert (P1 : snd st1 = snd st) by (destruct X as [Q _]; exact Q).
-  split; [lia|]. split; [lia|]. exists np. split; [rewrite E2, P1; reflexivity|]. split; [exact Sc2|]. split.
-  - intros a' Hi Hsat. destruct (So2 a' Hi Hsat) as [Hi1 [Ev Kd]]. destruct (So1 a' Hi1) as [Hi0 Ax].
-    split; [exact Hi0|]. split; [exact Ev|].
-    rewrite (win_sub_nonvar e a' Hv), Kd, Ev; simpl. apply Ax; exact Hv.
-  - intros a x Hi Hx Hw. rewrite (win_sub_nonvar e a Hv), Hx in Hw. apply andb_true_iff in Hw. destruct Hw as [Kd Ax].
-    destruct (Co1 a x Hi Hx (fun _ => Ax)) as [a1 [A1 [I1 V1]]].
+  split; [lia|]. split; [lia|]. split; [auto|]. exists np. split; [rewrite E2, P1; reflexivity|]. split; [exact Sc2|]. split.
+  - intros a' Hi Hsat. destruct (So2 a' Hi Hsat) as [Hi1 Ev]. split; [apply So1; exact Hi1|exact Ev].
+  - intros a x Hi Hx NN.
+    destruct (Co1 a x Hi Hx (N2 NN)) as [a1 [A1 [I1 V1]]].
     assert (Pe : Pexpr e rv a1).
-    { split; [rewrite (eval_agree _ a a1 e Hs A1), V1; exact Hx|rewrite (win_kids_agree _ a a1 e Hs A1); exact Kd]. }
-    destruct (Co2 a1 I1 Pe) as [a2 [A2 [I2 Sat2]]].
+    { unfold Pexpr. rewrite (eval_agree _ a a1 e Hs A1), V1; exact Hx. }
+    destruct (Co2 a1 I1 Pe NN) as [a2 [A2 [I2 Sat2]]].
     exists a2. split; [eapply agree_trans; eauto|]. split; [exact I2|]. split; [exact Sat2|]. rewrite (A2 rv Hrv); exact V1.
 Qed.
 
 (* get_expr_var: the returned variable carries the value of e *)
 Lemma get_expr_var_ok : forall e st, escoped (nvars st) e ->
-  gev_spec e win_top st (fst (get_expr_var e st)) (snd (get_expr_var e st)).
+  gev_spec e st (fst (get_expr_var e st)) (snd (get_expr_var e st)).
 Proof.
   intros e st Hs.
   destruct e as [v|c|l r|l r|l r|l r];
-  try (match goal with |- gev_spec ?e _ _ _ _ =>
+  try (match goal with |- gev_spec ?e _ _ _ =>
          pose proof (alloc_post_ok e st eq_refl Hs) as G; unfold gev_spec in *; exact G end).
-  - simpl in *. split; [exact Hs|]. split; [lia|]. exists []; rewrite app_nil_r.
+  - simpl in *. split; [exact Hs|]. split; [lia|]. split; [auto|]. exists []; rewrite app_nil_r.
     split; [reflexivity|]. split; [constructor|]. split.
     + intros a' Hi _; auto.
     + intros a x Hi Hx _. exists a; repeat split; auto using agree_refl, allsat_nil. inversion Hx; reflexivity.
   - cbn [get_expr_var new_var fst snd]. unfold gev_spec, nvars; cbn [fst snd]. rewrite app_length; cbn [length].
-    split; [lia|]. split; [lia|]. exists []; rewrite app_nil_r.
+    split; [lia|]. split; [lia|]. split; [intro N; apply ne_app in N; tauto|]. exists []; rewrite app_nil_r.
     split; [reflexivity|]. split; [constructor|]. split.
     + intros a' Hi _. apply inst_app in Hi. destruct Hi as [Hi Hin]. apply drange_In in Hin.
-      split; [exact Hi|]. split; [cbn [eval_expr]; f_equal; lia|reflexivity].
+      split; [exact Hi|]. cbn [eval_expr]; f_equal; lia.
     + intros a x Hi Hx _. inversion Hx; subst x. exists (upd a (length (fst st)) c).
       split; [apply agree_upd; lia|]. split; [|split; [apply allsat_nil|apply upd_same]].
       apply inst_app; split; [eapply inst_agree; [apply agree_upd; lia|exact Hi]|].
@@ -673,13 +659,13 @@ Proof.
 Qed.
 
 Lemma impl_bin_true : forall l op r a, impl_cons (CBin l op r) a = true <->
-  exists x y, eval_expr l a = Some x /\ eval_expr r a = Some y /\ cmp_sem op x y = true /\ win_top l a = true /\ win_top r a = true.
+  exists x y, eval_expr l a = Some x /\ eval_expr r a = Some y /\ cmp_sem op x y = true.
 Proof.
   intros l op r a; unfold impl_cons; cbn [impl_gen].
   destruct (eval_expr l a) as [x|]; [destruct (eval_expr r a) as [y|]|].
-  - rewrite !andb_true_iff; split.
-    + intros [[H1 H2] H3]; exists x, y; auto.
-    + intros [x' [y' [E1 [E2 [H1 [H2 H3]]]]]]; inversion E1; inversion E2; subst; auto.
+  - split.
+    + intros H1; exists x, y; auto.
+    + intros [x' [y' [E1 [E2 H1]]]]; inversion E1; inversion E2; subst; auto.
   - split; [discriminate|intros [x' [y' [_ [E _]]]]; discriminate].
   - split; [discriminate|intros [x' [y' [E _]]]; discriminate].
 Qed.
@@ -688,12 +674,12 @@ Lemma mat_gen_ok : forall l op r st, escoped (nvars st) l -> escoped (nvars st) 
   step st (mat_gen l op r st) (fun a => impl_cons (CBin l op r) a = true).
 Proof.
   intros l op r st Hl Hr; unfold mat_gen.
-  destruct (get_expr_var_ok l st Hl) as [Hlv [Hn1 [np1 [E1 [Sc1 [So1 Co1]]]]]].
+  destruct (get_expr_var_ok l st Hl) as [Hlv [Hn1 [N1 [np1 [E1 [Sc1 [So1 Co1]]]]]]].
   set (lv := fst (get_expr_var l st)) in *. set (st1 := snd (get_expr_var l st)) in *.
   assert (Hr1 : escoped (nvars st1) r) by (eapply escoped_le; eauto).
-  destruct (get_expr_var_ok r st1 Hr1) as [Hrv [Hn2 [np2 [E2 [Sc2 [So2 Co2]]]]]].
+  destruct (get_expr_var_ok r st1 Hr1) as [Hrv [Hn2 [N2 [np2 [E2 [Sc2 [So2 Co2]]]]]]].
   set (rv := fst (get_expr_var r st1)) in *. set (st2 := snd (get_expr_var r st1)) in *.
-  split; [unfold push, nvars in *; simpl; lia|].
+  split; [unfold push, nvars in *; simpl; lia|unfold push; cbn [fst]; auto|].
   exists (np1 ++ np2 ++ [p_cmp op (VVar lv) (VVar rv)]). split.
   { unfold push; simpl. rewrite E2, E1, <- !app_assoc; reflexivity. }
   split.
@@ -704,13 +690,13 @@ Proof.
   - intros a' Hi Hs. unfold push in Hi; simpl in Hi.
     apply allsat_app in Hs; destruct Hs as [Hs1 Hs]. apply allsat_app in Hs; destruct Hs as [Hs2 Hs3].
     apply allsat_one in Hs3. rewrite p_cmp_sat in Hs3.
-    destruct (So2 a' Hi Hs2) as [Hi1 [Er Wr]]. destruct (So1 a' Hi1 Hs1) as [Hi0 [El Wl]].
+    destruct (So2 a' Hi Hs2) as [Hi1 Er]. destruct (So1 a' Hi1 Hs1) as [Hi0 El].
     split; [exact Hi0|]. apply impl_bin_true. exists (a' lv), (a' rv); auto.
-  - intros a Hi Him. apply impl_bin_true in Him. destruct Him as [x [y [El [Er [Hc [Wl Wr]]]]]].
-    destruct (Co1 a x Hi El Wl) as [a1 [A1 [I1 [Sat1 V1]]]].
+  - intros a Hi Him NN. unfold push in NN; cbn [fst] in NN.
+    apply impl_bin_true in Him. destruct Him as [x [y [El [Er Hc]]]].
+    destruct (Co1 a x Hi El (N2 NN)) as [a1 [A1 [I1 [Sat1 V1]]]].
     assert (Er1 : eval_expr r a1 = Some y) by (rewrite (eval_agree _ a a1 r Hr A1); exact Er).
-    assert (Wr1 : win_top r a1 = true) by (rewrite (win_top_agree _ a a1 r Hr A1); exact Wr).
-    destruct (Co2 a1 y I1 Er1 Wr1) as [a2 [A2 [I2 [Sat2 V2]]]].
+    destruct (Co2 a1 y I1 Er1 NN) as [a2 [A2 [I2 [Sat2 V2]]]].
     exists a2. split; [eapply agree_trans; eauto|]. split; [exact I2|].
     apply allsat_app; split; [eapply allsat_agree; eauto|].
     apply allsat_app; split; [exact Sat2|]. apply allsat_one. rewrite p_cmp_sat.
@@ -740,7 +726,9 @@ Proof.
   { subst st0; destruct op; auto. intros a Hi E. unfold set_dom; simpl.
     apply (inst_supd a (fst st) v _ Hv). split; [intros; apply Hi; assumption|].
     apply only_In. split; [auto|]. rewrite <- (E eq_refl). apply Hi; exact Hv. }
-  split; [unfold push, nvars in *; subst st1; simpl; rewrite app_length; simpl; lia|].
+  split; [unfold push, nvars in *; subst st1; simpl; rewrite app_length; simpl; lia| |].
+  { unfold push; subst st1; cbn [fst]. intro N. apply ne_app in N. destruct N as [N _].
+    subst st0; destruct op; auto. unfold set_dom in N; cbn [fst] in N. eapply ne_supd_only; eauto. }
   eexists. split; [unfold push; subst st1; simpl; rewrite P0; reflexivity|].
   split.
   { constructor; [|constructor]. unfold push, nvars; subst st1; simpl. rewrite app_length; simpl. fold (nvars st0).
@@ -750,7 +738,7 @@ Proof.
     apply drange_In in Hin. fold (nvars st0) in Hin. fold n in Hin. assert (En : a' n = k) by lia.
     apply allsat_one in Hs. split; [apply Sub; exact Hi|].
     destruct swap; rewrite p_cmp_sat, En in Hs; exact Hs.
-  - intros a Hi Hc. exists (upd a n k).
+  - intros a Hi Hc _. exists (upd a n k).
     assert (An : agree (nvars st) a (upd a n k)) by (apply agree_upd; subst n; lia).
     split; [exact An|]. split.
     + unfold push; subst st1; simpl. apply inst_app. split.
@@ -786,12 +774,12 @@ Proof.
     { destruct l; try discriminate; destruct r; try discriminate. simpl in Hl.
       rewrite materialize_var_val by exact Hl.
       eapply step_weaken; [|apply (mat_var_val_ok false v op c st Hl)].
-      intro a; unfold impl_cons; simpl. rewrite !andb_true_r. tauto. }
+      intro a; unfold impl_cons; simpl. tauto. }
     destruct (is_val l && is_var r) eqn:E2.
     { destruct l; try discriminate; destruct r; try discriminate. simpl in Hr.
       rewrite materialize_val_var by exact Hr.
       eapply step_weaken; [|apply (mat_var_val_ok true v op c st Hr)].
-      intro a; unfold impl_cons; simpl. rewrite !andb_true_r. tauto. }
+      intro a; unfold impl_cons; simpl. tauto. }
     rewrite materialize_gen by assumption. apply mat_gen_ok; assumption.
   - destruct Hs as [H1 H2]. cbn [materialize].
     eapply step_weaken; [|eapply step_trans; [|apply IHc1; exact H1|apply IHc2]].
@@ -802,7 +790,7 @@ Proof.
     destruct (or_eq_pattern c1 c2) as [[[x l] r]|] eqn:E.
     + apply or_eq_pattern_some in E. destruct E as [-> ->]. simpl in H1. destruct H1 as [Hx _].
       cbn [new_var fst snd].
-      split; [unfold push, nvars; simpl; rewrite app_length; simpl; lia|].
+      split; [unfold push, nvars; simpl; rewrite app_length; simpl; lia|unfold push; cbn [fst]; intro N; apply ne_app in N; tauto|].
       eexists. split; [unfold push; simpl; reflexivity|]. split.
       { constructor; [|constructor]. simpl; unfold vscoped, push, nvars in *; simpl. rewrite app_length; simpl. lia. }
       split.
@@ -810,7 +798,7 @@ Proof.
         apply allsat_one in Hsat. cbn [psat vsem] in Hsat. apply Z.eqb_eq in Hsat. fold (nvars st) in Hin. rewrite <- Hsat in Hin.
         unfold dof_values in Hin. apply (proj1 (zsort_In _ _)) in Hin. simpl in Hin. split; [exact Hi|].
         apply orb_true_iff. destruct Hin as [<-|[<-|[]]]; [left|right]; apply Z.eqb_refl.
-      * intros a Hi Hor. exists (upd a (nvars st) (a x)).
+      * intros a Hi Hor _. exists (upd a (nvars st) (a x)).
         assert (An : agree (nvars st) a (upd a (nvars st) (a x))) by (apply agree_upd; lia).
         split; [exact An|]. split.
         -- unfold push; cbn [fst snd]. apply inst_app. split; [eapply inst_agree; [exact An|exact Hi]|].
@@ -888,7 +876,7 @@ Qed.
 Lemma gev_sext : forall e st, sext (fst st) (fst (snd (get_expr_var e st))).
 Proof.
   intros e st; destruct e; cbn [get_expr_var create_result_var new_var fst snd]; auto using sext_refl, sext_app;
-  (eapply sext_trans; [apply (sext_app (fst st) aux_dom)|];
+  (eapply sext_trans; [apply sext_app|];
    match goal with |- sext _ (fst (post_expr ?e ?r ?s)) => apply (post_expr_sext e r s) end).
 Qed.
 
@@ -1020,7 +1008,7 @@ Section Build.
     Forall (cscoped n) (mpend m) /\ incl (mpend m) cs /\ Forall (fun c => simple_bin c = false) (mpend m) /\
     (forall a', inst a' (fst (mst m)) -> allsat (snd (mst m)) a' ->
         inst a' s0 /\ forall c, In c cs -> In c (mpend m) \/ impl_cons c a' = true) /\
-    (forall a, inst a s0 -> (forall c, In c cs -> impl_cons c a = true) ->
+    (forall a, inst a s0 -> (forall c, In c cs -> impl_cons c a = true) -> ne (fst (mst m)) ->
         exists a', agree n a a' /\ inst a' (fst (mst m)) /\ allsat (snd (mst m)) a').
 
   Lemma J_pending : forall m cs c', J m cs -> cscoped n c' -> simple_bin c' = false ->
@@ -1036,7 +1024,7 @@ Section Build.
       intros c0 H; apply in_app_or in H. destruct H as [H|[<-|[]]].
       + destruct (Hall c0 H); [left; apply in_or_app; left; assumption|right; assumption].
       + left; apply in_or_app; right; left; reflexivity.
-    - intros a Hi Hall. apply Co; [exact Hi|]. intros c0 H; apply Hall; apply in_or_app; left; exact H.
+    - intros a Hi Hall N. apply Co; [exact Hi| |exact N]. intros c0 H; apply Hall; apply in_or_app; left; exact H.
   Qed.
 
   Lemma J_immediate : forall m cs c c', J m cs -> cscoped n c -> (forall a, impl_cons c a = impl_cons c' a) ->
@@ -1044,7 +1032,7 @@ Section Build.
   Proof.
     intros m cs c c' HJ Hc Heq Hp; simpl in *. destruct (HJ Hp) as [U [L [X [Sc [Pc [Inc [Ns [So Co]]]]]]]].
     assert (Hc' : cscoped (nvars (mst m)) c) by (eapply cscoped_le; eauto).
-    destruct (materialize_ok c (mst m) Hc') as [Hn [np [E [Sn [Sos Cos]]]]].
+    destruct (materialize_ok c (mst m) Hc') as [Hn Hne [np [E [Sn [Sos Cos]]]]].
     split; [exact U|]. split; [lia|]. split; [eapply sext_trans; [exact X|apply materialize_sext]|].
     split; [rewrite E; apply Forall_app; split; [eapply Forall_pscoped_le; eauto|exact Sn]|].
     split; [exact Pc|]. split; [intros c0 H; apply in_or_app; left; apply Inc; exact H|]. split; [exact Ns|].
@@ -1053,12 +1041,12 @@ Section Build.
       destruct (Sos a' Hi Hs2) as [Hi1 Him]. destruct (So a' Hi1 Hs1) as [Hi0 Hall]. split; [exact Hi0|].
       intros c0 H; apply in_app_or in H. destruct H as [H|[<-|[]]]; [apply Hall; exact H|].
       right. rewrite <- Heq; exact Him.
-    - intros a Hi Hall.
-      destruct (Co a Hi (fun c0 H => Hall c0 (in_or_app _ _ _ (or_introl H)))) as [a1 [A1 [I1 Sat1]]].
+    - intros a Hi Hall N.
+      destruct (Co a Hi (fun c0 H => Hall c0 (in_or_app _ _ _ (or_introl H))) (Hne N)) as [a1 [A1 [I1 Sat1]]].
       assert (Him : impl_cons c a1 = true).
       { unfold impl_cons. rewrite (impl_agree false n a a1 c Hc A1). fold (impl_cons c a). rewrite Heq.
         apply Hall. apply in_or_app; right; left; reflexivity. }
-      destruct (Cos a1 I1 Him) as [a2 [A2 [I2 Sat2]]].
+      destruct (Cos a1 I1 Him N) as [a2 [A2 [I2 Sat2]]].
       exists a2. split; [eapply agree_trans; [|exact A1|exact A2]; exact L|]. split; [exact I2|].
       rewrite E. apply allsat_app; split; [eapply allsat_agree; eauto|exact Sat2].
   Qed.
@@ -1077,7 +1065,8 @@ Section Build.
     assert (B2 : (v2 <? nvars (mst m))%nat = true) by (apply Nat.ltb_lt; lia).
     rewrite B1, B2 in Hv; simpl in Hv.
     set (s := fst (mst m)) in *. set (d1 := sget s v1) in *. set (d2 := sget s v2) in *.
-    destruct (dempty d1 || dempty d2); [discriminate|].
+    destruct (dempty d1 || dempty d2);
+      [inversion Hv; subst st'; exact (conj U (conj L (conj X (conj Sc (conj Pc (conj Inc (conj Ns (conj So Co))))))))|].
     set (lo := if dmin d2 <? dmin d1 then dmin d1 else dmin d2) in *.
     set (hi := if dmax d1 <? dmax d2 then dmax d1 else dmax d2) in *.
     destruct (lo <=? hi) eqn:Elh;
@@ -1115,7 +1104,17 @@ Section Build.
     split; [unfold nvars in *; cbn [fst snd]; rewrite Ls2; exact Sc|].
     split; [exact Pc|]. split; [exact Inc|]. split; [exact Ns|]. split.
     - intros a' Hi Hs. apply So; [apply Sub; exact Hi|exact Hs].
-    - intros a Hi Hall. destruct (Co a Hi Hall) as [a1 [A1 [I1 Sat1]]]. exists a1. split; [exact A1|]. split; [|exact Sat1].
+    - intros a Hi Hall N.
+      assert (N0 : ne s).
+      { intros u Hu E0. specialize (N u). rewrite Ls2 in N. specialize (N Hu). apply N.
+        destruct (Nat.eq_dec u v2) as [->|N2].
+        - unfold s2; rewrite sget_supd_same by lia. destruct (Nat.eq_dec v2 v1) as [->|N1].
+          + unfold s1; rewrite sget_supd_same by lia. fold s in E0. unfold d1. rewrite E0. reflexivity.
+          + unfold s1; rewrite sget_supd_other by exact N1. fold s in E0. rewrite E0. reflexivity.
+        - unfold s2; rewrite sget_supd_other by exact N2. destruct (Nat.eq_dec u v1) as [->|N1].
+          + unfold s1; rewrite sget_supd_same by lia. fold s in E0. unfold d1. rewrite E0. reflexivity.
+          + unfold s1; rewrite sget_supd_other by exact N1. exact E0. }
+      destruct (Co a Hi Hall N0) as [a1 [A1 [I1 Sat1]]]. exists a1. split; [exact A1|]. split; [|exact Sat1].
       pose proof (Heq a Hall) as E12.
       assert (In1 : In (a1 v1) d1) by (apply I1; exact Lv1). assert (In2 : In (a1 v2) d2) by (apply I1; exact Lv2).
       assert (S1 : sorted d1) by (apply user_sorted; [exact X|exact H1]).
@@ -1240,7 +1239,7 @@ Section BuildPosts.
         destruct l, op, r; try discriminate K2;
         (match goal with |- impl_cons ?c a = _ =>
            assert (E : eval_cons c a = Some (impl_cons (to_linear c) a)) by (eapply impl_lin_eval; reflexivity) end;
-         simpl in E; inversion E as [E']; unfold impl_cons at 1; cbn [impl_gen eval_expr win_top]; rewrite !andb_true_r; exact E'). }
+         simpl in E; inversion E as [E']; unfold impl_cons at 1; cbn [impl_gen eval_expr]; exact E'). }
       assert (P : post c m = mkms (materialize c (mst m)) (mpend m) (muser m) (mpanic m)).
       { destruct c as [l op r| | | |]; try discriminate K2. destruct l, op, r; try discriminate K2; reflexivity. }
       rewrite P. apply J_immediate; assumption.
@@ -1331,7 +1330,7 @@ Section Program.
     split; [reflexivity|]. split; [lia|]. split; [apply sext_refl|]. split; [constructor|]. split; [constructor|].
     split; [intros c []|]. split; [constructor|]. split.
     - intros a' Hi _. split; [exact Hi|intros c []].
-    - intros a Hi _. exists a. split; [apply agree_refl|]. split; [exact Hi|apply allsat_nil].
+    - intros a Hi _ _. exists a. split; [apply agree_refl|]. split; [exact Hi|apply allsat_nil].
   Qed.
 
   Lemma posts_J : forall ps m cs, J n s0 m cs -> Forall (post_wf n) ps ->
@@ -1350,10 +1349,12 @@ Section Program.
 
   (* EXACT denotation of the lowered model, known classes included: an assignment of the user's
      variables extends to the auxiliaries so that every domain and every propagator description is
-     satisfied iff it lies in the declared domains and satisfies `impl_cons` of every stored AST *)
+     satisfied iff it lies in the declared domains, satisfies `impl_cons` of every stored AST, and
+     the lowered model is in range (no empty domain: doms_nonempty; an auxiliary variable whose
+     computed range exceeds the size limit is represented by the empty domain) *)
   Theorem lower_denotes_exact : forall s ps, lower (build (decls ++ posts)) = LOk s ps ->
     forall a, (exists a', agree n a a' /\ inst a' s /\ allsat ps a') <->
-              (inst a s0 /\ forall c, In c (post_forms posts) -> impl_cons c a = true).
+              (inst a s0 /\ (forall c, In c (post_forms posts) -> impl_cons c a = true) /\ doms_nonempty s = true).
   Proof.
     intros s ps Hl a.
     unfold build in Hl. rewrite fold_left_app in Hl. fold (build decls) in Hl.
@@ -1365,19 +1366,19 @@ Section Program.
     fold (mat_all (mpend m) (mst m)).
     assert (Pc' : Forall (cscoped (nvars (mst m))) (mpend m)).
     { eapply Forall_impl; [|exact Pc]. intros; eapply cscoped_le; eauto. }
-    destruct (mat_all_ok (mpend m) (mst m) Pc') as [Hn [np [E [Sn [Sos Cos]]]]].
+    destruct (mat_all_ok (mpend m) (mst m) Pc') as [Hn Hne [np [E [Sn [Sos Cos]]]]].
     pose proof (post_forms_scoped n posts Hposts) as Hsc. rewrite Forall_forall in Hsc.
     split.
     - intros [a' [A [Hi Hs]]]. rewrite E in Hs. apply allsat_app in Hs. destruct Hs as [Hs1 Hs2].
       destruct (Sos a' Hi Hs2) as [Hi1 Hpend]. destruct (So a' Hi1 Hs1) as [Hi0 Hall].
-      split.
+      split; [|split; [|apply doms_nonempty_ne; eapply inst_ne; exact Hi]].
       + eapply inst_agree; [rewrite s0_len; apply agree_sym; exact A|exact Hi0].
       + intros c Hc. unfold impl_cons. rewrite <- (impl_agree false n a a' c (Hsc c Hc) A). fold (impl_cons c a').
         destruct (Hall c Hc) as [Hin|Ht]; [apply Hpend; exact Hin|exact Ht].
-    - intros [Hi Hall]. destruct (Co a Hi Hall) as [a1 [A1 [I1 Sat1]]].
+    - intros [Hi [Hall N]]. apply doms_nonempty_ne in N. destruct (Co a Hi Hall (Hne N)) as [a1 [A1 [I1 Sat1]]].
       assert (Hp1 : forall c, In c (mpend m) -> impl_cons c a1 = true).
       { intros c Hc. unfold impl_cons. rewrite (impl_agree false n a a1 c (Hsc c (Inc c Hc)) A1). apply Hall, Inc, Hc. }
-      destruct (Cos a1 I1 Hp1) as [a2 [A2 [I2 Sat2]]].
+      destruct (Cos a1 I1 Hp1 N) as [a2 [A2 [I2 Sat2]]].
       exists a2. split; [eapply agree_trans; [|exact A1|exact A2]; exact L|]. split; [exact I2|].
       rewrite E. apply allsat_app; split; [eapply allsat_agree; eauto|exact Sat2].
   Qed.
@@ -1406,13 +1407,13 @@ Proof. intros c a; unfold holds; destruct (eval_cons c a) as [[|]|]; split; cong
 Lemma holds_and : forall p q a, holds (CAnd p q) a = holds p a && holds q a.
 Proof. intros p q a; unfold holds; simpl. destruct (eval_cons p a) as [[|]|], (eval_cons q a) as [[|]|]; reflexivity. Qed.
 
-Lemma impl_holds : forall c a, kf_or_not c = false -> win_cons c a = true -> impl_cons c a = holds c a.
+Lemma impl_holds : forall c a, kf_or_not c = false -> impl_cons c a = holds c a.
 Proof.
-  induction c; intros a Hk Hw; simpl in Hk, Hw.
-  - apply andb_true_iff in Hw. destruct Hw as [W1 W2]. unfold impl_cons, holds; cbn [impl_gen eval_cons].
-    rewrite W1, W2. destruct (eval_expr l a), (eval_expr r a); cbn [obind]; try reflexivity.
+  induction c; intros a Hk; simpl in Hk.
+  - unfold impl_cons, holds; cbn [impl_gen eval_cons].
+    destruct (eval_expr l a), (eval_expr r a); cbn [obind]; try reflexivity.
     destruct (cmp_sem op z z0); reflexivity.
-  - apply orb_false_iff in Hk. destruct Hk as [K1 K2]. apply andb_true_iff in Hw. destruct Hw as [W1 W2].
+  - apply orb_false_iff in Hk. destruct Hk as [K1 K2].
     rewrite holds_and. unfold impl_cons; cbn [impl_gen]. fold (impl_cons c1 a) (impl_cons c2 a).
     rewrite IHc1, IHc2 by assumption. reflexivity.
   - unfold impl_cons; cbn [impl_gen]. destruct (or_eq_pattern c1 c2) as [[[x l] r]|] eqn:E; [|discriminate].
@@ -1425,45 +1426,27 @@ Qed.
 Lemma kf_to_linear : forall c, kf_or_not (to_linear c) = kf_or_not c.
 Proof. intro c; destruct c; try reflexivity. simpl. destruct (linform l) as [[? ?]|]; [destruct (linform r) as [[? ?]|]|]; reflexivity. Qed.
 
-Lemma stored_holds : forall c a, kf_or_not (fold_cons c) = false -> win_cons (to_linear (fold_cons c)) a = true ->
+Lemma stored_holds : forall c a, kf_or_not (fold_cons c) = false ->
   impl_cons (to_linear (fold_cons c)) a = holds c a.
 Proof.
-  intros c a Hk Hw. rewrite impl_holds; [|rewrite kf_to_linear; exact Hk|exact Hw].
+  intros c a Hk. rewrite impl_holds; [|rewrite kf_to_linear; exact Hk].
   unfold holds. rewrite to_linear_correct, fold_cons_correct. reflexivity.
 Qed.
 
-(* ---- the aux-bounds class: enumeration of the declared domains is complete ---- *)
-Lemma all_asgs_complete : forall (s : store) a, (forall v, (v < length s)%nat -> In (a v) (sget s v)) ->
-  In (map a (seq 0 (length s))) (all_asgs s).
+(* validate = None implies the in-range condition *)
+Lemma validate_none_nonempty : forall s ps, validate s ps = None -> doms_nonempty s = true.
 Proof.
-  induction s as [|d r IH]; intros a H; simpl; [left; reflexivity|].
-  apply in_flat_map. exists (a 0%nat). split; [apply (H 0%nat); simpl; lia|].
-  apply in_map_iff. exists (map (fun v => a (S v)) (seq 0 (length r))). split.
-  - f_equal. rewrite <- seq_shift, map_map. reflexivity.
-  - apply (IH (fun v => a (S v))). intros v Hv. apply (H (S v)). simpl; lia.
+  intros s ps H. unfold validate in H.
+  destruct (existsb dempty s) eqn:E; [discriminate|].
+  unfold doms_nonempty. apply forallb_forall. intros d Hd.
+  destruct (dempty d) eqn:Ed; [|reflexivity].
+  assert (X : existsb dempty s = true).
+  { apply existsb_exists. exists d. split; [exact Hd|exact Ed]. }
+  congruence.
 Qed.
-Lemma asg_of_list_agree : forall n a, agree n a (asg_of_list (map a (seq 0 n))).
-Proof.
-  intros n a v Hv. unfold asg_of_list.
-  rewrite (nth_indep _ 0 (a 0%nat)) by (rewrite map_length, seq_length; exact Hv).
-  rewrite map_nth. rewrite seq_nth by exact Hv. reflexivity.
-Qed.
-Lemma win_cons_agree : forall n a a' c, cscoped n c -> agree n a a' -> win_cons c a' = win_cons c a.
-Proof.
-  intros n a a'; induction c; simpl; intros Hs Ha; try reflexivity.
-  - destruct Hs; rewrite !(win_top_agree n a a') by assumption; reflexivity.
-  - destruct Hs; rewrite IHc1, IHc2 by assumption; reflexivity.
-  - destruct Hs; rewrite IHc1, IHc2 by assumption; reflexivity.
-  - apply IHc; assumption.
-Qed.
-Lemma aux_bounds_win : forall c (s : store) a, kf_aux_bounds c s = false -> cscoped (length s) c -> inst a s ->
-  win_cons (to_linear (fold_cons c)) a = true.
-Proof.
-  intros c s a Hk Hs Hi. unfold kf_aux_bounds in Hk. apply negb_false_iff in Hk. rewrite forallb_forall in Hk.
-  specialize (Hk _ (all_asgs_complete s a Hi)).
-  rewrite <- Hk. symmetry. apply (win_cons_agree (length s)); [|apply asg_of_list_agree].
-  apply to_linear_scoped, fold_cons_scoped; exact Hs.
-Qed.
+(* a store the engine accepts (every domain non-empty and sorted) is in range *)
+Lemma wf_store_nonempty : forall s : store, wf_store s -> doms_nonempty s = true.
+Proof. intros s H. apply doms_nonempty_ne. intros v Hv. apply (H v Hv). Qed.
 
 Section Denotes.
   Variable decls posts : list stmt.
@@ -1472,13 +1455,13 @@ Section Denotes.
   Let s0 : store := map decl_dom decls.
   Hypothesis Hposts : Forall (post_wf n) posts.
   (* no posted tree lies in a known-defect class of the lowering *)
-  Hypothesis Hclass : forall c, In (SNew c) posts -> kf_or_not (fold_cons c) = false /\ kf_aux_bounds c s0 = false.
+  Hypothesis Hclass : forall c, In (SNew c) posts -> kf_or_not (fold_cons c) = false.
 
-  Lemma forms_hold : forall a, inst a s0 ->
+  Lemma forms_hold : forall a,
     ((forall c, In c (post_forms posts) -> impl_cons c a = true) <->
      (forall st c, In st posts -> stmt_cons st = Some c -> eval_cons c a = Some true)).
   Proof.
-    intros a Hi. clear Hdecls. revert Hposts Hclass. generalize posts as ps.
+    intros a. clear Hdecls. revert Hposts Hclass. generalize posts as ps.
     induction ps as [|st r IH]; intros Hw Hc; simpl.
     - split; [intros _ st c []|intros _ c []].
     - inversion Hw; subst.
@@ -1486,9 +1469,7 @@ Section Denotes.
       assert (Key : exists f, post_form st = Some f /\ exists c, stmt_cons st = Some c /\ (impl_cons f a = true <-> eval_cons c a = Some true)).
       { destruct st; simpl in H1; try tauto.
         - exists (to_linear (fold_cons c)). split; [reflexivity|]. exists c. split; [reflexivity|].
-          destruct (Hc c (or_introl eq_refl)) as [K1 K2].
-          rewrite stored_holds; [apply holds_true_iff|exact K1|].
-          apply (aux_bounds_win c s0 a K2); [unfold s0; rewrite map_length; exact H1|exact Hi].
+          rewrite stored_holds; [apply holds_true_iff|exact (Hc c (or_introl eq_refl))].
         - exists (CLinInt cs xs op k). split; [reflexivity|]. exists (CLinInt cs xs op k). split; [reflexivity|].
           unfold impl_cons; simpl. split; [intros ->; reflexivity|intro E; inversion E; reflexivity]. }
       destruct Key as [f [Ef [c [Ec Eq]]]]. rewrite Ef. split.
@@ -1502,15 +1483,17 @@ Section Denotes.
 
   (* C10, integer fragment: the lowered propagator set (with the final domains) has, projected on
      the user's variables, exactly the assignments inside the declared domains at which every
-     posted tree evaluates to true *)
+     posted tree evaluates to true -- for a lowered model that is in range (doms_nonempty: no
+     auxiliary variable's computed range exceeded the size limit; implied by validate = None) *)
   Theorem lower_denotes : forall s ps, lower (build (decls ++ posts)) = LOk s ps ->
+    doms_nonempty s = true ->
     forall a, (exists a', agree n a a' /\ inst a' s /\ allsat ps a') <->
               (inst a s0 /\ forall st c, In st posts -> stmt_cons st = Some c -> eval_cons c a = Some true).
   Proof.
-    intros s ps Hl a. pose proof (lower_denotes_exact decls posts Hdecls Hposts s ps Hl a) as E.
+    intros s ps Hl Hne a. pose proof (lower_denotes_exact decls posts Hdecls Hposts s ps Hl a) as E.
     split.
-    - intro H. apply E in H. destruct H as [Hi H]. split; [exact Hi|]. apply (proj1 (forms_hold a Hi)); exact H.
-    - intros [Hi H]. apply E. split; [exact Hi|]. apply (proj2 (forms_hold a Hi)); exact H.
+    - intro H. apply E in H. destruct H as [Hi [H _]]. split; [exact Hi|]. apply (proj1 (forms_hold a)); exact H.
+    - intros [Hi H]. apply E. split; [exact Hi|]. split; [apply (proj2 (forms_hold a)); exact H|exact Hne].
   Qed.
 End Denotes.
 
@@ -1519,17 +1502,18 @@ End Denotes.
 Theorem spellings_agree : forall decls posts1 posts2 s1 ps1 s2 ps2,
   forallb is_decl decls = true ->
   Forall (post_wf (length decls)) posts1 -> Forall (post_wf (length decls)) posts2 ->
-  (forall c, In (SNew c) posts1 -> kf_or_not (fold_cons c) = false /\ kf_aux_bounds c (map decl_dom decls) = false) ->
-  (forall c, In (SNew c) posts2 -> kf_or_not (fold_cons c) = false /\ kf_aux_bounds c (map decl_dom decls) = false) ->
+  (forall c, In (SNew c) posts1 -> kf_or_not (fold_cons c) = false) ->
+  (forall c, In (SNew c) posts2 -> kf_or_not (fold_cons c) = false) ->
   (forall a, (forall st c, In st posts1 -> stmt_cons st = Some c -> eval_cons c a = Some true) <->
              (forall st c, In st posts2 -> stmt_cons st = Some c -> eval_cons c a = Some true)) ->
   lower (build (decls ++ posts1)) = LOk s1 ps1 -> lower (build (decls ++ posts2)) = LOk s2 ps2 ->
+  doms_nonempty s1 = true -> doms_nonempty s2 = true ->
   forall a, (exists a', agree (length decls) a a' /\ inst a' s1 /\ allsat ps1 a') <->
             (exists a', agree (length decls) a a' /\ inst a' s2 /\ allsat ps2 a').
 Proof.
-  intros decls posts1 posts2 s1 ps1 s2 ps2 Hd W1 W2 K1 K2 Heq L1 L2 a.
-  pose proof (lower_denotes decls posts1 Hd W1 K1 s1 ps1 L1 a) as E1.
-  pose proof (lower_denotes decls posts2 Hd W2 K2 s2 ps2 L2 a) as E2.
+  intros decls posts1 posts2 s1 ps1 s2 ps2 Hd W1 W2 K1 K2 Heq L1 L2 N1 N2 a.
+  pose proof (lower_denotes decls posts1 Hd W1 K1 s1 ps1 L1 N1 a) as E1.
+  pose proof (lower_denotes decls posts2 Hd W2 K2 s2 ps2 L2 N2 a) as E2.
   split; intro H.
   - apply E2. apply E1 in H. destruct H as [Hi H]. split; [exact Hi|]. apply Heq; exact H.
   - apply E1. apply E2 in H. destruct H as [Hi H]. split; [exact Hi|]. apply Heq; exact H.
@@ -1555,7 +1539,7 @@ Ltac refute_by_exact decls posts Hl :=
   intro H;
   assert (Hw : Forall (post_wf (length decls)) posts) by (repeat constructor; simpl; repeat split; lia);
   apply (lower_denotes_exact decls posts eq_refl Hw _ _ Hl) in H;
-  destruct H as [_ H]; specialize (H _ (or_introl eq_refl)); vm_compute in H; discriminate H.
+  destruct H as [_ [H _]]; specialize (H _ (or_introl eq_refl)); vm_compute in H; discriminate H.
 
 (* D3: x in 0..3, x <= 1 \/ x >= 3: x = 0 satisfies the tree, the lowered model has no solution *)
 Lemma or_refuted : exists decls c a s ps,
@@ -1583,41 +1567,64 @@ Proof.
     (eq_refl : lower (build ([SInt 0 3] ++ [SNew (CNot (CBin x0 OLe (EVal 1)))])) = LOk _ _).
 Qed.
 
-(* D5: x = y = 50, x * y == 2500: the product lives in an auxiliary variable bounded by +-1000 *)
-Lemma aux_bounds_refuted : exists decls c a s ps,
-  kf_or_not (fold_cons c) = false /\ kf_aux_bounds c (map decl_dom decls) = true /\
-  lower (build (decls ++ [SNew c])) = LOk s ps /\
-  inst a (map decl_dom decls) /\ eval_cons c a = Some true /\
-  ~ (exists a', agree (length decls) a a' /\ inst a' s /\ allsat ps a').
+(* D5 repaired: x = y = 50, x * y == 2500.  The product lives in an auxiliary variable whose domain
+   is computed from the operands' bounds (2500..2500, not the former placeholder -1000..1000): the
+   lowered model is in range and has the solution *)
+Lemma aux_bounds_repaired : exists s ps,
+  lower (build ([SInt 50 50; SInt 50 50] ++ [SNew (CBin (EMul x0 x1) OEq (EVal 2500))])) = LOk s ps /\
+  doms_nonempty s = true /\ validate s ps = None /\
+  exists a', agree 2 (fun _ => 50) a' /\ inst a' s /\ allsat ps a'.
 Proof.
-  exists [SInt 50 50; SInt 50 50], (CBin (EMul x0 x1) OEq (EVal 2500)), (fun _ => 50).
-  eexists; eexists. split; [reflexivity|]. split; [vm_compute; reflexivity|]. split; [vm_compute; reflexivity|].
-  split; [intros v Hv; simpl in Hv; destruct v as [|[|v]]; [simpl; auto|simpl; auto|lia]|]. split; [reflexivity|].
-  refute_by_exact [SInt 50 50; SInt 50 50] [SNew (CBin (EMul x0 x1) OEq (EVal 2500))]
-    (eq_refl : lower (build ([SInt 50 50; SInt 50 50] ++ [SNew (CBin (EMul x0 x1) OEq (EVal 2500))])) = LOk _ _).
+  eexists; eexists. split; [vm_compute; reflexivity|]. split; [vm_compute; reflexivity|]. split; [vm_compute; reflexivity|].
+  assert (Hw : Forall (post_wf (length [SInt 50 50; SInt 50 50])) [SNew (CBin (EMul x0 x1) OEq (EVal 2500))])
+    by (repeat constructor; simpl; repeat split; lia).
+  apply (lower_denotes_exact [SInt 50 50; SInt 50 50] [SNew (CBin (EMul x0 x1) OEq (EVal 2500))] eq_refl Hw _ _
+           (eq_refl : lower (build ([SInt 50 50; SInt 50 50] ++ [SNew (CBin (EMul x0 x1) OEq (EVal 2500))])) = LOk _ _)).
+  split; [intros v Hv; simpl in Hv; destruct v as [|[|v]]; [simpl; auto|simpl; auto|lia]|].
+  split; [|vm_compute; reflexivity].
+  intros c [<-|[]]. vm_compute. reflexivity.
 Qed.
 
-(* D12-like: x in 0..9, x mod 3 == 1: lowering is faithful, but the divisor 3 sits in an auxiliary
-   variable with domain -1000..1000, which contains 0, and the validator rejects the model *)
+(* the in-range condition is not vacuous: x in 0..1000, y in 0..1001, x * y == 2500.  The product's
+   computed range 0..1001000 has more than max_sparse_set_domain_size values: the auxiliary variable
+   is represented by the empty domain, the validator rejects the model (InvalidDomain), and the
+   lowered model has no solution although (50, 50) satisfies the tree *)
+Lemma aux_range_too_large : exists s ps,
+  lower (build ([SInt 0 1000; SInt 0 1001] ++ [SNew (CBin (EMul x0 x1) OEq (EVal 2500))])) = LOk s ps /\
+  doms_nonempty s = false /\ validate s ps = Some EInvalidDomain /\
+  eval_cons (CBin (EMul x0 x1) OEq (EVal 2500)) (fun _ => 50) = Some true.
+Proof.
+  eexists; eexists. split; [vm_compute; reflexivity|]. split; [vm_compute; reflexivity|]. split; [vm_compute; reflexivity|].
+  reflexivity.
+Qed.
+
+(* D12-like, the half that is validator policy: x in 0..9, y in 0..3, x mod y == 1.  The lowering is
+   faithful, but the divisor's domain contains 0 and the validator rejects the model although
+   (1, 2) satisfies the tree.  (A constant divisor, x mod 3, is accepted since the auxiliary
+   variable of the constant has the domain 3..3: mod_const_accepted) *)
 Lemma mod_rejected_refuted : exists decls c a s ps,
   lower (build (decls ++ [SNew c])) = LOk s ps /\ validate s ps = Some EInvalidConstraint /\
   inst a (map decl_dom decls) /\ eval_cons c a = Some true.
 Proof.
-  exists [SInt 0 9], (CBin (EMod x0 (EVal 3)) OEq (EVal 1)), (fun _ => 1).
+  exists [SInt 0 9; SInt 0 3], (CBin (EMod x0 x1) OEq (EVal 1)), (fun v => match v with O => 1 | _ => 2 end).
   eexists; eexists. split; [vm_compute; reflexivity|]. split; [vm_compute; reflexivity|].
-  split; [intros v Hv; simpl in Hv; destruct v; [simpl; auto 12|lia]|reflexivity].
+  split; [intros v Hv; simpl in Hv; destruct v as [|[|v]]; [simpl; auto 12|simpl; auto 12|lia]|reflexivity].
 Qed.
+Lemma mod_const_accepted : exists s ps,
+  lower (build ([SInt 0 9] ++ [SNew (CBin (EMod x0 (EVal 3)) OEq (EVal 1))])) = LOk s ps /\ validate s ps = None.
+Proof. eexists; eexists. split; vm_compute; reflexivity. Qed.
 
-(* posting x == x (or x == y) after an immediate x == c with c outside the domain reads min() of an
-   empty SparseSet: a debug assertion (panic) in the builds the test suite uses *)
-Lemma eq_on_empty_panics :
-  lower (build [SInt 0 1; SNew (CBin x0 OEq (EVal 5)); SNew (CBin x0 OEq x0)]) = LPanic.
-Proof. vm_compute. reflexivity. Qed.
+(* repaired: posting x == x (or x == y) after an immediate x == c with c outside the domain leaves
+   the emptied domain alone (no read of min() of an empty SparseSet); the validator reports it *)
+Lemma eq_on_empty_invalid : exists s ps,
+  lower (build [SInt 0 1; SNew (CBin x0 OEq (EVal 5)); SNew (CBin x0 OEq x0)]) = LOk s ps /\
+  validate s ps = Some EInvalidDomain.
+Proof. eexists; eexists. split; vm_compute; reflexivity. Qed.
 
 (* the classes are not everything: trees with repeated variables, constants on both sides,
    products and conjunctions lie outside all of them *)
 Example outside_classes :
   let c := CAnd (CBin (ESub (EMul x0 x1) (EMul (EVal 2) x0)) OGe (EAdd x1 (EVal (-3))))
                 (CBin (EAdd x0 x0) OLt (EAdd (EMul x1 (EVal 3)) (EVal 1))) in
-  kf_or_not (fold_cons c) = false /\ kf_nested_ne c = false /\ kf_aux_bounds c [drange (-3) 4; drange 0 5] = false.
+  kf_or_not (fold_cons c) = false /\ kf_nested_ne c = false.
 Proof. vm_compute. auto. Qed.
